@@ -116,4 +116,36 @@ MANIFEST_TEXT = {
               _NOTE, _TECH, "DESIGN.md §6 C20"),
 }
 
+MANIFEST_TEXT.update({
+    "C03": _t("The four joins of the model (the code's nested loops, mergeRows, AppendRow into the pre-created union, matched flag / matched-key "
+              "list) are proved equal to the relational specification on rows (flatMap/filter; left wins; nil padding; order) for all frames; "
+              "missing key = error. Tied to the code by running generated frame pairs through the real joins and comparing every cell.",
+              _NOTE, _TECH, "DESIGN.md §6 C03"),
+    "C04": _t("Single-key Groupby is proved to produce exactly the partition by key (first-appearance KeyOrder, complete rows in order); for a "
+              "key list the statement is false of the code (recorded finding K1): proved under the injectivity hypothesis the proof forces and "
+              "refuted on a witness by decide. The real Groups/KeyOrder are compared with the partition spec and the model.",
+              _NOTE + " Open finding K1 is reported as KNOWN-FINDING.", _TECH, "DESIGN.md §6 C04"),
+    "C05": _t("Grouped Sum/Mean/Count are proved equal to the per-group arithmetic (exact rationals), the numeric type table is proved total "
+              "on all Go widths, and conservation (group sums add up to the column total) is proved from the partition. The real results "
+              "are compared with the spec evaluated on the specification's own partition.", _NOTE + " Float rounding is not modelled.", _TECH, "DESIGN.md §6 C05"),
+    "C06": _t("goframe's comparator is proved a strict weak order on homogeneous columns and equal to the specification's order (nil last in "
+              "both directions, numbers by value, text bytewise, earlier columns first); relative to the sort.Sort contract (shown inhabited by "
+              "the insertion sort Go uses up to 12 rows) the result is proved an ordered permutation of whole rows. The real SortValues output "
+              "is checked against that relational spec; for <= 12 rows it is compared exactly with the model.",
+              _NOTE + " sort.Sort enters through its contract (permutation without inversions for a strict weak order).", _TECH, "DESIGN.md §6 C06"),
+    "C07": _t("The row key is proved injective for all strings (length-prefix argument) relative to one law on %v of floats/times; from it the "
+              "model's DropDuplicates is proved equal to the specification (first/last/no member of each class of identical rows, in order; "
+              "Inplace; invalid Keep/subset = error). The real code is run on frames built to collide under a weaker key.",
+              _NOTE, _TECH, "DESIGN.md §6 C07"),
+    "C08": _t("Head/Tail/RowSlice/Filter(+call log)/Iloc/Loc/MultiSelect/DropRow/DropColumn/Row/ColumnNames of the model (the code's loops over "
+              "Row(i)/AppendRow and slices) are proved equal to take/drop/filter/map/flatMap/eraseIdx on rows for all frames and arguments; the "
+              "real methods are run on boundary arguments and compared cell by cell.", _NOTE, _TECH, "DESIGN.md §6 C08"),
+    "C15": _t("FillNa/DropNa/Astype/AddDatetimeIndex of the model are proved equal to their specifications (exactly the nil cells; exactly the "
+              "rows with a nil; per-cell conversion or an error with nothing changed; truncation toward zero); the real methods are compared "
+              "on every nil pattern and on columns with one unconvertible cell first/middle/last.", _NOTE, _TECH, "DESIGN.md §6 C15"),
+    "C19": _t("Shift is proved cell-exact for every 64-bit offset (the wrapped subtraction of the code decides 'inside the frame' like the "
+              "mathematical one), shape-preserving, identity at 0 and invertible off the ends; the real Shift is compared on boundary and "
+              "extreme offsets.", _NOTE, _TECH, "DESIGN.md §6 C19"),
+})
+
 NOT_APPLICABLE = {}
